@@ -27,6 +27,8 @@ STATIC = [
     "magnitude_is_cart_magnitude", "scale_cyl_commutes", "scale_sph_commutes",
     "field_cart_to_curv", "field_curv_to_cart", "field_invariance",
     "rebase_refused_iff", "field_rebase_refused_iff", "typed_point_refused_iff",
+    "rotation_roundtrip", "rotation_preserves_dot", "dot_curv_rotated", "curv_rotated_roundtrip",
+    "point_absent_is_zero", "point_set_then_get", "point_set_keeps_others", "point_set_length",
 ]
 
 PREAMBLE = """From Coq Require Import Reals Lra Lia Psatz Field List ZArith Bool.
@@ -83,6 +85,32 @@ class Api:
         cart = self.CoordinateSystem(self.S.CARTESIAN)
         v.sys = [cart, self.coordinates_transform(cart, self.S.CYLINDRICAL), self.coordinates_transform(cart, self.S.SPHERICAL)]
         return v
+
+    AXES = ["x", "y", "z"]
+    NAMES = [["x", "y", "z"], ["r", "theta", "z"], ["r", "theta", "phi"]]    # documented names, by position
+    # coordinate_systems.py: spherical "theta - azimuthal angle, phi - polar angle"; points/*.py accessors
+    ACCESSORS = [[["x"], ["y"], ["z"]], [["r", "radius"], ["theta", "azimuthal_angle"], ["z", "height"]],
+                 [["r", "radius"], ["theta", "azimuthal_angle"], ["phi", "polar_angle"]]]
+
+    def graph(self, axis, angle):
+        """root Cartesian C, B = C rotated by `angle` about C's `axis`, curvilinear children of both, and an unrelated root"""
+        from symplyphysics.core.coordinate_systems.coordinate_systems import coordinates_rotate  # pylint: disable=import-outside-toplevel
+        C = self.CoordinateSystem(self.S.CARTESIAN)
+        ax = {"x": C.coord_system.i, "y": C.coord_system.j, "z": C.coord_system.k}[axis]
+        B = coordinates_rotate(C, angle, ax)
+        tr = self.coordinates_transform
+        U = self.CoordinateSystem(self.S.CARTESIAN)
+        return {"C": C, "B": B, "Bc": [B, tr(B, self.S.CYLINDRICAL), tr(B, self.S.SPHERICAL)],
+                "Cc": [C, tr(C, self.S.CYLINDRICAL), tr(C, self.S.SPHERICAL)],
+                "Uc": [U, tr(U, self.S.CYLINDRICAL), tr(U, self.S.SPHERICAL)]}
+
+    def rebase_obj(self, comps, src, tgt):
+        arg = self.Vector(list(comps), src)
+        with self.preserved("Vector.rebase", arg, tgt):
+            v = arg.rebase(tgt)
+        if v.coordinate_system is not tgt:
+            raise AssertionError("rebase returned a vector in another system")
+        return list(v.components)
 
     def fresh(self, i):
         """another system of kind i (for same-kind rebases)"""
@@ -214,6 +242,20 @@ def m_from_cart(s, p):
         return (math.hypot(x, y), math.atan2(y, x), z)
     r = math.sqrt(x * x + y * y + z * z)
     return (r, math.atan2(y, x), math.acos(z / r))
+
+
+def m_to_parent(axis, al, p):
+    x, y, z = p
+    c, s_ = math.cos(al), math.sin(al)
+    if axis == "z":
+        return (x * c - y * s_, x * s_ + y * c, z)
+    if axis == "x":
+        return (x, y * c - z * s_, y * s_ + z * c)
+    return (x * c + z * s_, y, -x * s_ + z * c)
+
+
+def m_from_parent(axis, al, p):
+    return m_to_parent(axis, -al, p)
 
 
 def m_dot_cart(u, v):
@@ -402,7 +444,183 @@ def _spec_checks(api):
 
     for a in range(3):
         checks[f"field_shortpoint_{LOW[SYSN[a]]}"] = short_point_check(a)
+
+    # ---- graphs of systems: a frame rotated with coordinates_rotate, and curvilinear children of both frames -----------
+    def gen_graph(s, with_field=False):
+        def gen(rng):
+            inp = {"axis": rng.choice(Api.AXES), "angle": rnd(rng, 0.3, 2.8) * rng.choice([1, -1]), "coords": list(gen_point(rng, s)),
+                   "cart": [away(rng), away(rng), away(rng)], "dress": rng.choice(["float", "Float", "Rational"])}
+            if with_field:
+                inp.update({"field": rng.choice(sorted(FIELDS)), "how": rng.choice(["expr", "lambda"])})
+            return inp
+        return gen
+
+    def setup(inp):
+        return api.graph(inp["axis"], _dress([inp["angle"]], inp["dress"])[0])
+
+    def curv_to_root(s):
+        def pred(inp):
+            g = setup(inp)
+            p = _dress(inp["coords"], inp["dress"])
+            direct = [num(e) for e in api.rebase_obj(p, g["Bc"][s], g["C"])]
+            mid = api.rebase_obj(p, g["Bc"][s], g["B"])
+            two = [num(e) for e in api.rebase_obj(mid, g["B"], g["C"])]
+            want = list(m_to_parent(inp["axis"], inp["angle"], m_to_cart(s, inp["coords"])))
+            return close(direct, want) and close(two, want), {"direct": direct, "via_own_cartesian_parent": two}, {"components_in_root": want}
+        return gen_graph(s), pred
+
+    def root_to_curv(s):
+        def pred(inp):
+            g = setup(inp)
+            got = [num(e) for e in api.rebase_obj(_dress(inp["cart"], inp["dress"]), g["C"], g["Bc"][s])]
+            want = list(m_from_cart(s, m_from_parent(inp["axis"], inp["angle"], inp["cart"])))
+            return close(got, want), {"direct": got}, {"coordinates_in_child_of_rotated_frame": want}
+        return gen_graph(s), pred
+
+    def curv_to_curv(s):
+        def pred(inp):
+            g = setup(inp)
+            got = [num(e) for e in api.rebase_obj(_dress(inp["coords"], inp["dress"]), g["Cc"][s], g["Bc"][s])]
+            want = list(m_from_cart(s, m_from_parent(inp["axis"], inp["angle"], m_to_cart(s, inp["coords"]))))
+            return close(got, want), {"direct": got}, {"coordinates_in_child_of_rotated_frame": want}
+        return gen_graph(s), pred
+
+    def field_graph(s, direction):
+        def pred(inp):
+            g = setup(inp)
+            f = FIELDS[inp["field"]]
+            src, tgt, ts = (g["C"], g["Bc"][s], s) if direction == "root_to_child" else (g["Bc"][s], g["C"], 0)
+            ss = 0 if direction == "root_to_child" else s
+            bs = src.coord_system.base_scalars()
+            fld = api.ScalarField.from_expression(f(*bs), src) if inp["how"] == "expr" else \
+                api.ScalarField(lambda p_: f(p_.coordinate(0), p_.coordinate(1), p_.coordinate(2)), src)
+            with api.preserved("ScalarField.rebase", fld, tgt):
+                new = fld.rebase(tgt)
+            # the physical point is given by its coordinates in the curvilinear (or rotated) child
+            q = inp["coords"]
+            in_root = m_to_parent(inp["axis"], inp["angle"], m_to_cart(s, q))
+            at_new, at_old = (q, in_root) if direction == "root_to_child" else (in_root, q)
+            got = num(new(api.points[ts](*_dress(list(at_new), inp["dress"]))))
+            want = num(f(*[sp.Float(v) for v in at_old]))
+            del ss
+            return close([got], [want]), {"new_field_at_new_coordinates": got}, {"old_field_at_old_coordinates": want}
+        return gen_graph(s, True), pred
+
+    def unrelated():
+        def gen(rng):
+            return {"axis": "z", "angle": 0.5, "coords": [away(rng), away(rng), away(rng)], "dress": "Float"}
+
+        def pred(inp):
+            g = setup(inp)
+            obs = {}
+            for a in range(3):
+                for b in range(3):
+                    if (a, b) in ((1, 2), (2, 1)):
+                        continue
+                    p = gen_point(__import__("random").Random(1), a)
+                    obs[f"{SYSN[a]}(unrelated root)->{SYSN[b]}"] = refused(lambda a=a, b=b, p=p: api.rebase_obj(_dress(list(p), "Float"), g["Uc"][a], g["Cc"][b]))
+            return all(v != "value" for v in obs.values()), obs, {"every_pair": "refused (no path between the systems)"}
+        return gen, pred
+
+    for s in (1, 2):
+        n = LOW[SYSN[s]]
+        checks[f"graph_curv_to_root_{n}"] = curv_to_root(s)
+        checks[f"graph_root_to_curv_{n}"] = root_to_curv(s)
+        checks[f"graph_curv_to_curv_{n}"] = curv_to_curv(s)
+        checks[f"graph_field_root_to_curv_{n}"] = field_graph(s, "root_to_child")
+        checks[f"graph_field_curv_to_root_{n}"] = field_graph(s, "child_to_root")
+    checks["graph_field_root_to_rotated"] = field_graph(0, "root_to_child")
+    checks["graph_unrelated"] = unrelated()
+
+    # ---- names of the base scalars are tied to positions and to the Point accessors ------------------------------------
+    def named(s):
+        def gen(rng):
+            return {"coords": list(gen_point(rng, s)), "dress": rng.choice(["float", "Float", "Rational"])}
+
+        def pred(inp):
+            cs = api.sys[s]
+            vals = _dress(inp["coords"], inp["dress"])
+            pt = api.points[s](*vals)
+            obs, ok = {}, True
+            for pos, name in enumerate(Api.NAMES[s]):
+                scalar = getattr(cs.coord_system, name)
+                is_pos = scalar == cs.coord_system.base_scalars()[pos]
+                via_field = num(api.ScalarField.from_expression(scalar, cs)(pt))
+                accs = [num(getattr(pt, a)) for a in Api.ACCESSORS[s][pos]]
+                obs[name] = {"is_base_scalar_at_position": pos if is_pos else "NO", "field_of_named_scalar_at_point": via_field, "point_accessors": accs}
+                ok = ok and is_pos and close([via_field] + accs, [inp["coords"][pos]] * (1 + len(accs)))
+            return ok, obs, {"coordinates": inp["coords"], "names_by_position": Api.NAMES[s]}
+        return gen, pred
+
+    for s in range(3):
+        checks[f"named_scalars_{LOW[SYSN[s]]}"] = named(s)
+
+    # ---- points built with 0..3 coordinates and then modified through setters, and fields applied at them -----------
+    def pred_points(inp):
+        trace = run_point_ops(api, inp)
+        model = list(inp["init"])
+        want_trace = []
+        for (idx, _how, val) in inp["ops"]:
+            model = model + [0] * (idx + 1 - len(model))
+            model[idx] = 0 if val is None else val
+            want_trace.append({"coordinates": list(model), "getters": (model + [0, 0, 0, 0])[:4]})
+        ok = [t["coordinates"] for t in trace] == [t["coordinates"] for t in want_trace] and \
+            [t["getters"] for t in trace] == [t["getters"] for t in want_trace]
+        obs = {"after_each_step": trace}
+        if inp["kind"] > 0:        # a typed point: apply a field of its own system at it
+            s_ = inp["kind"] - 1
+            pt = build_point(api, inp)
+            got = num(api.field(s_, FIELDS["poly"], "expr")(pt))
+            want = num(FIELDS["poly"](*[sp.Integer(v) for v in (model + [0, 0, 0])[:3]]))
+            obs["field_poly_at_point"] = got
+            ok = ok and close([got], [want])
+            want_trace.append({"field_poly_at_point": want})
+        return ok, obs, {"after_each_step": want_trace}
+    checks["point_setters"] = (gen_point_ops, pred_points)
     return checks
+
+
+POINT_KINDS = ["Point", "CartesianPoint", "CylinderPoint", "SpherePoint"]
+
+
+def gen_point_ops(rng):
+    kind = rng.randrange(4)
+    init = [rng.choice([-3, -2, -1, 1, 2, 3, 4]) for _ in range(rng.randrange(4))]
+    ops = []
+    for _ in range(rng.randint(1, 5)):
+        idx = rng.randrange(3)
+        names = ["set_coordinate"] + (Api.ACCESSORS[kind - 1][idx] if kind > 0 else [])
+        how = rng.choice(names)
+        val = rng.choice([-7, -5, 5, 6, 7, 8, 9]) if (how != "set_coordinate" or rng.random() < 0.85) else None
+        ops.append([idx, how, val])
+    return {"kind": kind, "init": init, "ops": ops}
+
+
+def _point_cls(api, kind):
+    return api.Point if kind == 0 else api.points[kind - 1]
+
+
+def run_point_ops(api, inp):
+    """the real point class: construct with the initial coordinates, apply the setters, read everything after each step"""
+    p = _point_cls(api, inp["kind"])(*inp["init"])
+    trace = []
+    for (idx, how, val) in inp["ops"]:
+        if how == "set_coordinate":
+            p.set_coordinate(idx, val)
+        else:
+            setattr(p, how, val)
+        trace.append({"coordinates": [int(c) for c in p.coordinates], "getters": [int(p.coordinate(i)) for i in range(4)]})
+    return trace
+
+
+def build_point(api, inp):
+    p = _point_cls(api, inp["kind"])(*inp["init"])
+    for (idx, how, val) in inp["ops"]:
+        if how == "set_coordinate":
+            p.set_coordinate(idx, val)
+        else:
+            setattr(p, how, val)
+    return p
 
 
 def _dress(vals, mode):
@@ -524,6 +742,26 @@ def build(api: Api, gen: Gen):
         leg(f"rebase_{na}_{nb}_len1", lambda p, a=a, b=b: api.rebase(a, b, [p]),
             f"Vector([a0], {na}).rebase({nb})", [("R", 0)], "V3",
             f"match rebase {SYSN[a]} {SYSN[b]} [x0] with Some w => w | None => (0, 0, 0) end")
+    # -- curvilinear child of a frame rotated by a symbolic angle, rebased straight to the root frame ---------------
+    for s_ in (1, 2):
+        for axis in Api.AXES:
+            n = LOW[SYSN[s_]]
+
+            def fn(p, q, r, al, s_=s_, axis=axis):
+                g = api.graph(axis, al)
+                return api.rebase_obj([p, q, r], g["Bc"][s_], g["C"])
+            leg(f"rebase_{n}_rot{axis}_root", fn, f"Vector in {n}(child of C rotated about {axis}) .rebase(C)",
+                [U, ("R", 3)], "V3", f"curv_rotated_to_parent {SYSN[s_]} A{axis.upper()} x3 u")
+    # -- a field written through the NAMED base scalars (getattr(coord_system, name)) ------------------------------
+    for a in range(3):
+        n = LOW[SYSN[a]]
+
+        def fnamed(p, q, r, a=a):
+            cs = api.sys[a]
+            e = F(*[getattr(cs.coord_system, nm) for nm in Api.NAMES[a]])
+            return api.ScalarField.from_expression(e, cs)(api.points[a](p, q, r))
+        leg(f"fieldnamed_{n}", fnamed, f"field f({', '.join(Api.NAMES[a])}) written through named scalars of {n}, at a {n} point",
+            [("F",), U], "R", "apply_field f u")
     # -- arithmetics -----------------------------------------------------------------------------------------
     for s in range(3):
         n = LOW[SYSN[s]]
@@ -862,6 +1100,13 @@ Definition vp_check_tr (c : vp_tkind * sys * sys * bool) : bool :=
   | TRebase => Bool.eqb (match rebase a b [] with Some _ => true | None => false end) o
   | TField => Bool.eqb (match field_rebase a b (fun _ _ _ => 0) with Some _ => true | None => false end) o
   end.
+Definition vp_zlist_eqb (a b : list Z) : bool :=
+  Nat.eqb (length a) (length b) && forallb (fun p => Z.eqb (fst p) (snd p)) (combine a b).
+(* (initial coordinates, setter calls (index, value), coordinates observed afterwards, getters 0..3 observed afterwards) *)
+Definition vp_check_point (c : list Z * list (nat * Z) * list Z * list Z) : bool :=
+  let '(init, ops, obs, gets) := c in
+  let l := pset_all 0%Z init ops in
+  vp_zlist_eqb l obs && vp_zlist_eqb (map (pget 0%Z l) [0%nat; 1%nat; 2%nat; 3%nat]) gets.
 Definition vp_check_call (c : bool * pkind * sys * outcome) : bool :=
   let '(cb, pk, fs, o) := c in outcome_eqb (field_call cb pk fs) o.
 """
@@ -875,6 +1120,7 @@ LEG_TO_SPEC = {
     "cart_cyl": ["roundtrip_cart_cyl_cart", "roundtrip_cyl_cart_cyl", "field_cyl_cart"],
     "cyl_cart": ["roundtrip_cart_cyl_cart", "roundtrip_cyl_cart_cyl", "field_cart_cyl", "dot_cyl", "scale_cyl"],
     "cart_sph": ["roundtrip_cart_sph_cart", "roundtrip_sph_cart_sph", "field_sph_cart"],
+    "rot": ["graph_curv_to_root_cyl", "graph_curv_to_root_sph"], "fieldnamed": ["named_scalars_cart", "named_scalars_cyl", "named_scalars_sph"],
     "sph_cart": ["roundtrip_cart_sph_cart", "roundtrip_sph_cart_sph", "field_cart_sph", "dot_sph", "scale_sph"],
     "dot_cyl": ["dot_cyl"], "dot_sph": ["dot_sph"], "magnitude_cyl": ["magnitude_cyl"], "magnitude_sph": ["magnitude_sph"],
     "scale_cyl": ["scale_cyl"], "scale_sph": ["scale_sph"],
@@ -888,7 +1134,8 @@ def related_specs(name, all_names):
             out += v
     if "field" in name:
         out += [n for n in all_names if n.startswith("field_") and any(p in name for p in (n[len("field_"):],))]
-    prio = lambda n: (["roundtrip", "dot", "magnitude", "scale", "field"].index(n.split("_")[0]), n)
+    order = ["roundtrip", "dot", "magnitude", "scale", "field", "graph", "named", "point"]
+    prio = lambda n: (order.index(n.split("_")[0]) if n.split("_")[0] in order else 99, n)
     return sorted(set(out) or set(all_names), key=prio)
 
 
@@ -1004,6 +1251,35 @@ def run(ctx):
     n_hist, hist_steps = history_stream(ctx, api)
     n_obl += hist_steps
     ctx.coverage["history_sequences"] = n_hist
+
+    # ---- 3d. points: the real Point classes against the Gallina model (pset / pget), seeded setter sequences ----------------
+    zl = lambda xs: "[" + "; ".join(f"({x})%Z" for x in xs) + "]"
+    pcases, pinputs = [], []
+    for _ in range(ctx.pick(60, 600)):
+        inp = gen_point_ops(rng)
+        try:
+            trace = run_point_ops(api, inp)
+        except Exception as e:  # pylint: disable=broad-except
+            ctx.violation(f"C11:points:exception:{type(e).__name__}", f"point operations {inp} raised {type(e).__name__}: {e}",
+                {"kind": "spec", "check": "point_setters", "input": inp, "theorem_or_tie": "points correspondence"}, found_input=True)
+            continue
+        for k, t in enumerate(trace):
+            ops = "[" + "; ".join(f"({i}%nat, ({0 if v is None else v})%Z)" for (i, _h, v) in inp["ops"][:k + 1]) + "]"
+            pcases.append(f"({zl(inp['init'])}, {ops}, {zl(t['coordinates'])}, {zl(t['getters'])})")
+            pinputs.append(dict(inp, ops=inp["ops"][:k + 1]))
+    n_obl += len(pcases)
+    bad_p = coqrun.eval_cases(ctx, "points", TABLE_PRE, pcases, "vp_check_point") if pcases else []
+    _g, ppred = checks["point_setters"]
+    for i in bad_p[:1]:
+        inp = min((pinputs[j] for j in bad_p), key=lambda x: (len(x["ops"]), len(x["init"])))
+        good, obs, want = ppred(inp)
+        ctx.violation(f"C11:points:{POINT_KINDS[inp['kind']]}:{inp['ops'][-1][1]}", f"{POINT_KINDS[inp['kind']]}({inp['init']}) after {inp['ops']}: "
+            f"implementation {obs}, model {want}", {"kind": "spec", "check": "point_setters", "input": inp, "observed": obs, "expected": want,
+            "theorem_or_tie": "Model.Coords.pset / pget correspondence"}, found_input=not good)
+        del i
+    ctx.coverage["point_cases"] = len(pcases)
+    if pcases:
+        ctx.sample({"point_case": pcases[len(pcases) // 2]})
 
     # ---- 4. refusal tables (exhaustive) --------------------------------------------------------------------------
     rows = refusal_tables(api)
